@@ -14,12 +14,12 @@ RULES = {
             "arguments only (no terminal/ambient/receiver state outside the key) and no caller mutates its result in place",
     "R1": "the cache key covers every mutable render input: every render-data field / iterator cell that a public control method can change and "
           "that _render_ receives (minus the cache index frame_offset and seek_whence) appears in the tuple compared against the cached details, "
-          "and the tuple stored with a frame lists the same expressions in the same order",
+          "and the tuple stored with a frame lists the same expressions in the same order (the miss condition is taken as the disjuncts of its traced truth value, so helpers, early returns and conditional expressions around the lookup do not matter; the details compared are those stored with the entry of the current frame number)",
     "R2": "padding is applied after the cache: what is stored in the cache is the frame as returned by _render_, never the padded frame "
           "(no cache store is reachable from the padding step within an iteration)",
     "R3": "cache switch: _cached is False for INDEFINITE sources, else cache itself if bool, else frame_count <= cache; _animate_ disables the cache "
           "exactly when loops == 1; the argument check rejects cache <= 0 unless it is False",
-    "R4": "a hit renders nothing: the only _render_ call of _iterate is guarded by the miss condition (no frame cached, or details differ)",
+    "R4": "a hit renders nothing: the only _render_ call of _iterate is guarded by the miss condition (no frame cached, or details differ): its disjuncts are exactly {no cache, no frame stored for this number, details differ}, and on a hit the frame served is cache[frame_no][0]",
     "R5": "image iterator: every store into ImageIterator's cache records hash(image.rendered_size) evaluated at the store (after the render), the "
           "second phase compares a fresh hash with the stored one and re-renders on a mismatch; alpha/fmt/style_args are never rebound",
 }
